@@ -314,6 +314,10 @@ def rule_token(ctx, rid):
                     and {repr(a.value), repr(b.value)} == {'None', '0'}:
                 r.ok(k2, fi.site, 'a lower bound of 0 is no lower bound')
                 continue
+            if anc and isinstance(anc[-1][0], ast.Slice) and anc[-1][1] == 'step' and kind == 'const' and isinstance(a, ast.Constant) and isinstance(b, ast.Constant) \
+                    and {repr(a.value), repr(b.value)} == {'None', '1'}:
+                r.ok(k2, fi.site, 'a step of 1 is no step')
+                continue
             tr = _test_root(anc)
             stmt_new = next((n for n, f in reversed(anc) if isinstance(n, ast.stmt)), None)
             why_ = ctx.explained.get((fi.qualname, getattr(stmt_new, 'lineno', -1), None)) or ctx.explained.get((fi.qualname, getattr(stmt_new, 'lineno', -1), _default_of(anc, a, b)))
@@ -328,7 +332,7 @@ def rule_token(ctx, rid):
                     r.ok(k2, common.site_of(fi, stmt_new), 'resolved by the MRO: ' + mark.split(' ', 1)[1] + 'the same slot')
                     continue
             if kind == 'arg':
-                why_arg = _harmless_arg(anc, a, b)
+                why_arg = _harmless_arg(anc, a, b, ctx.repo, fi)
                 if why_arg:
                     r.ok(k2, common.site_of(fi, stmt_new) if stmt_new is not None else fi.site, why_arg)
                     continue
@@ -496,7 +500,56 @@ def _copyprop(fn, expr, at):
     return ast.fix_missing_locations(S().visit(ast.parse(ast.unparse(expr), mode='eval').body))
 
 
-def _harmless_arg(anc, a, b):
+def _default_at(repo, fi, call, pos):
+    """(value, parameter name) of the default of the positional parameter `pos` of the function or class a call names
+    exactly (a module-level name, or `Class.method` with the class named), when that default folds to a constant"""
+    from .model import ClassRef, FuncRef, UNKNOWN
+    target = None
+    bound = 0
+    try:
+        v = repo.fold(call.func, fi.module, cls=fi.cls)
+    except Exception:
+        v = UNKNOWN
+    if isinstance(v, FuncRef):
+        target = v.info
+        if isinstance(call.func, ast.Attribute) and target.cls is not None and target.params[:1] and target.params[0] in ('self', 'cls') and target.kind in ('classmethod',):
+            bound = 1
+    elif isinstance(v, ClassRef):
+        target = repo.lookup_method(v.info, '__init__')
+        if repo.lookup_method(v.info, '__new__') is not None and target is not None:
+            return None
+        target = target or repo.lookup_method(v.info, '__new__')
+        bound = 1
+    elif isinstance(call.func, ast.Attribute) and isinstance(call.func.value, ast.Name):
+        try:
+            cv = repo.fold(call.func.value, fi.module, cls=fi.cls)
+        except Exception:
+            cv = UNKNOWN
+        if isinstance(cv, ClassRef):
+            target = repo.lookup_method(cv.info, call.func.attr)
+            if target is not None and target.kind == 'classmethod':
+                bound = 1
+            elif target is not None and target.kind != 'staticmethod':
+                return None
+    if target is None:
+        return None
+    k = pos + bound
+    if k >= len(target.params):
+        return None
+    p = target.params[k]
+    d = target.defaults().get(p)
+    if d is None:
+        return None
+    try:
+        dv = repo.fold(d, target.module, cls=target.cls)
+    except Exception:
+        return None
+    if dv is UNKNOWN:
+        return None
+    return dv, p
+
+
+def _harmless_arg(anc, a, b, repo=None, fi=None):
     """an argument dropped (b None) or added (a None) that says what the call does anyway -> reason or None"""
     if not anc or not isinstance(anc[-1][0], ast.Call):
         return None
@@ -506,6 +559,9 @@ def _harmless_arg(anc, a, b):
     n_long = n_now + 1 if b is None else n_now
     fn = ast.unparse(call.func)
     const = arg.value if isinstance(arg, ast.Constant) else None
+    is_lit = isinstance(arg, ast.Constant)
+    if isinstance(arg, ast.UnaryOp) and isinstance(arg.op, ast.USub) and isinstance(arg.operand, ast.Constant) and type(arg.operand.value) in (int, float):
+        const, is_lit = -arg.operand.value, True
     if call.keywords:
         return None
     if fn == 'range' and n_long == 2 and type(const) is int and const == 0:
@@ -515,6 +571,18 @@ def _harmless_arg(anc, a, b):
             return 'range(0, n) is range(n)'
     if fn.startswith('ctypes.c_') and n_long == 1 and type(const) is int and const == 0:
         return 'a ctypes scalar starts at zero'
+    if isinstance(call.func, ast.Attribute) and call.func.attr in ('decode', 'encode') and n_long == 1 and isinstance(const, str):
+        cname = const.lower().replace('-', '').replace('_', '')
+        if cname == 'utf8':
+            return 'utf-8 is the default codec'
+        recv = call.func.value
+        if call.func.attr == 'decode' and cname in ('ascii', 'latin1', 'iso88591') and isinstance(recv, ast.Call) \
+                and (ast.unparse(recv.func) in ('binascii.hexlify', 'binascii.b2a_hex') or (isinstance(recv.func, ast.Attribute) and recv.func.attr == 'hex')):
+            return 'hex digits decode the same under ascii and utf-8'
+    if repo is not None and is_lit:
+        dflt = _default_at(repo, fi, call, n_long - 1)
+        if dflt is not None and type(dflt[0]) is type(const) and dflt[0] == const:
+            return 'the argument restates the default of `%s`' % dflt[1]
     if isinstance(call.func, ast.Attribute) and call.func.attr == 'split' and n_long == 2 and type(const) is int and const >= 1:
         # x.split(sep, k)[0] is x.split(sep)[0]: the first piece ends at the first separator either way
         up = anc[-2][0] if len(anc) > 1 else None
@@ -554,7 +622,8 @@ def _struct_format(anc, a, b):
     fb = b.value.decode('latin1') if isinstance(b.value, bytes) else b.value
     if fa[:1] not in '<>=!' or fa[:1] != fb[:1] or not fa:
         return False
-    nrm = lambda s_: s_.replace('L', 'I').replace('l', 'i')
+    import re as _re
+    nrm = lambda s_: _re.sub(r'(\d+)([a-zA-Z?])', lambda m_: m_.group(0) if m_.group(2) in 'sp' else m_.group(2) * int(m_.group(1)), s_.replace(' ', '')).replace('L', 'I').replace('l', 'i')
     return nrm(fa) == nrm(fb)
 
 
